@@ -155,6 +155,17 @@ func specModesOK(env *Pass1) bool {
 // dispatch to) assigns is pass-1 state, the ocode list, the code generation context's
 // mode, and objects it allocates itself. The frame is checked against the inferred
 // write sets of all handlers registered in opcodeEvalFns.
+// An EQU statement stores, under its name, exactly the expression object that evaluating its body
+// gave (the result of the recursive call at the second call site, "TraverseAST#1") - not a re-wrapped
+// or normalised copy (C11: a name is interchangeable with its defining expression).
+func specDeclName(n ast.Node) string {
+	d, ok := n.(*ast.DeclareStmt)
+	if !ok || d.Id == nil {
+		return ""
+	}
+	return d.Id.Value
+}
+
 // A label statement assigns the label the value of the location counter at that point and does not
 // move it (C03: a label's value is the origin plus the bytes counted before it).
 func specIsLabelStmt(n ast.Node) bool {
@@ -176,13 +187,14 @@ func specLabelOf(n ast.Node) string {
 }
 
 //@ func TraverseAST
-//@ props C10 C14 C17 C05 C07 C03
+//@ props C10 C14 C17 C05 C07 C03 C11
 //@ option trusted-frame no-panic-obligations
 //@ requires env != nil && env.Client != nil && env.SymTable != nil && specModesOK(env)
 //@ loop 0 invariant specModesOK(env)
 //@ loop 1 invariant specModesOK(env)
 //@ loop 2 invariant specModesOK(env)
 //@ ensures[T.mode] specModesOK(env)
+//@ calls[equ.store@C11] (*pass1.Pass1).DefineMacro : (specDeclName(node) != "" ==> arg1 == specDeclName(node)) && vcSame(ast.Node(arg2), vcResult[ast.Node]("TraverseAST#1", 0))
 //@ ensures[label.loc@C03] specIsLabelStmt(node) ==> env.LOC == old(env.LOC)
 //@ ensures[label.val@C03] specIsLabelStmt(node) && specLabelNonNil(node) ==> env.SymTable[specLabelOf(node)] == old(env.LOC)
 //@ ensures[nohandler.opcode@C07] specIsOpcodeStmt(node) && !specHasHandler(specOpcodeOf(node)) ==> vcLoggedError()
